@@ -179,3 +179,70 @@ def search_fold(drv, rng, budget):
                 if n >= budget:
                     return None
     return None
+
+
+# ---------------------------------------------------------------- C09 for_while
+FW_HELPERS = """
+fn add32(a: u32, b: u32) -> u32 { let (c, s): (bool, u32) = jet::add_32(a, b); s }
+fn mix(acc: u32, i: u32) -> u32 {
+    let prod: u64 = jet::multiply_32(acc, 31);
+    let (hi, lo): (u32, u32) = <u64>::into(prod);
+    add32(lo, i)
+}
+fn to32_1(b: u1) -> u32 { jet::left_pad_low_1_32(b) }
+fn to32_2(x: u2) -> u32 { let (h, l): (u1, u1) = <u2>::into(x); let hh: u32 = to32_1(h); add32(add32(hh, hh), to32_1(l)) }
+fn to32_4(x: u4) -> u32 { let (h, l): (u2, u2) = <u4>::into(x); let hh: u32 = to32_2(h); let h2: u32 = add32(hh, hh); add32(add32(h2, h2), to32_2(l)) }
+fn to32_8(x: u8) -> u32 { jet::left_pad_low_8_32(x) }
+fn to32_16(x: u16) -> u32 { jet::left_pad_low_16_32(x) }
+"""
+
+def spec_for_while(width, init, exit_at):
+    """order-recording body: acc' = acc*31 + i; Left(acc') when i == exit_at, else Right(acc')"""
+    acc = init
+    for i in range(2 ** width):
+        acc = (acc * 31 + i) % 2 ** 32
+        if i == exit_at:
+            return ("Left", acc)
+    return ("Right", acc)
+
+
+def for_while_program(width, init, exit_at):
+    side, val = spec_for_while(width, init, exit_at)
+    body = """
+fn body(acc: u32, ctx: u32, i: u%d) -> Either<u32, u32> {
+    let i32: u32 = to32_%d(i);
+    let mixed: u32 = mix(acc, i32);
+    match jet::eq_32(i32, ctx) {
+        true => Left(mixed),
+        false => Right(mixed),
+    }
+}
+""" % (width, width)
+    if side == "Left":
+        arms = "        Left(b: u32) => assert!(jet::eq_32(b, %d)),\n        Right(a: u32) => panic!(),\n" % val
+    else:
+        arms = "        Left(b: u32) => panic!(),\n        Right(a: u32) => assert!(jet::eq_32(a, %d)),\n" % val
+    main = "fn main() {\n    let r: Either<u32, u32> = for_while::<body>(%d, %d);\n    match r {\n%s    }\n}\n" % (init, exit_at, arms)
+    return FW_HELPERS + body + main
+
+
+@searcher("forwhile/for_while")
+def search_for_while(drv, rng, budget):
+    """counter widths 1, 2, 4, 8 (16 with VERIF_TIER=thorough): every exit iteration for the small widths, sampled for 8/16, and no exit"""
+    widths = [1, 2, 4, 8] + ([16] if os.environ.get("VERIF_TIER") == "thorough" else [])
+    n = 0
+    for w in widths:
+        top = 2 ** w
+        exits = list(range(top)) if w <= 4 else sorted(set([0, 1, 2, top // 2 - 1, top // 2, top - 2, top - 1] + [rng.randrange(top) for _ in range(4 if w == 8 else 1)]))
+        if w == 16:
+            exits = [0, 1, 255, 256, 257]
+        for e in exits + [2 ** 20]:
+            init = rng.randrange(2 ** 32)
+            src = for_while_program(w, init, e)
+            got = drv.call("run", hx(src), hx(""), hx(""), "0")
+            n += 1
+            if got != "ok":
+                return {"call": "for_while::<body> with a u%d counter, exit at iteration %s" % (w, e if e < top else "never"),
+                        "input": {"width": w, "init": init, "exit_at": e, "program": src},
+                        "op": ["run", hx(src), hx(""), hx(""), "0"], "expected": "ok", "observed": got}
+    return None
